@@ -119,6 +119,8 @@ def _canonical_regex_calls(tree: ast.Module) -> ast.Module:
             if isinstance(f, ast.Attribute) and f.attr in _RE_METHODS:
                 d = dotted(f.value) or ""
                 key = d if d in consts else ("self." + d.split(".", 1)[1] if d.startswith(("self.", "cls.")) and "self." + d.split(".", 1)[1] in consts else None)
+                if key is not None and f.attr in ("search", "match", "fullmatch", "findall", "finditer") and (len(node.args) > 1 or node.keywords):
+                    key = None  # pos / endpos have no module-level spelling
                 if key is not None:
                     comp = consts[key]
                     import copy
